@@ -32,7 +32,9 @@ __all__ = ["All", "Computable", "HasObservables", "Observable"]
 _hashable_signal = namedtuple("_HashableSignal", "instance name")
 
 CURRENT_COMPUTED: Computed | None = None  # the current Computed that is evaluating
+# the Observables read so far by the Computeds that are evaluating (cycle detection)
 PROCESSING_SIGNALS: set[tuple[str,]] = set()
+EVALUATION_DEPTH: int = 0  # number of Computed functions that are running right now
 
 
 class BaseObservable(ABC):
@@ -111,8 +113,6 @@ class Observable(BaseObservable):
 
         super().__set__(instance, value)  # send the notify
         setattr(instance, self.private_name, value)
-
-        PROCESSING_SIGNALS.clear()  # we have notified our children, so we can clear this out
 
 
 class Computable(BaseObservable):
@@ -226,7 +226,7 @@ class Computed:
         self.parents.clear()
 
     def __call__(self):
-        global CURRENT_COMPUTED  # noqa: PLW0603
+        global CURRENT_COMPUTED, EVALUATION_DEPTH  # noqa: PLW0603
 
         if self._is_dirty:
             changed = False
@@ -275,6 +275,7 @@ class Computed:
 
                 old = CURRENT_COMPUTED
                 CURRENT_COMPUTED = self
+                EVALUATION_DEPTH += 1
 
                 try:
                     self._value = self.func(*self.args, **self.kwargs)
@@ -282,6 +283,11 @@ class Computed:
                     raise e
                 finally:
                     CURRENT_COMPUTED = old
+                    EVALUATION_DEPTH -= 1
+                    if EVALUATION_DEPTH == 0:
+                        # the outermost evaluation is over: what it read (also through
+                        # nested evaluations) only counts for assignments made during it
+                        PROCESSING_SIGNALS.clear()
 
             self._is_dirty = False
 
